@@ -223,6 +223,12 @@ def outer_block_loops(ctx, body):
                 if not own and not inner_parents:
                     h, blocks = H, HB
                     break
+                # `for x in files.iter().flat_map(|f| f.blocks.iter()..)`: the loop that pulls the next
+                # inner item (marked by the expansion) sits inside the for-loop, which also pulls the next
+                # file when the inner iterator is exhausted: one iteration of the for-loop is one block
+                if own and not inner_parents and kind == "blocks" and any(body.blocks[x].get("lazy_inner") for x in blocks):
+                    h, blocks = H, HB
+                    break
             res.append((h, blocks, kind))
     return res
 
@@ -234,9 +240,14 @@ def sh_state(ctx, out, name, allowed_names=("violations", "tasks"), rule="SH.sta
     if vb is None:
         out.inst(rule + "." + name, 0, 1)
         return
+    from engine.core import on_any_view
+    on_any_view(out, _validator_views(ctx, name, vb), lambda bodies, o: _sh_state(ctx, o, name, rule, bodies))
+
+
+def _sh_state(ctx, out, name, rule, bodies):
     found = 0
     samples = []
-    for body in ctx.facts.with_descendants(vb):
+    for body in bodies:
         cfg = cfg_of(body)
         loops = outer_block_loops(ctx, body)
         for h, blocks, kind in loops:
@@ -344,6 +355,19 @@ def sh_main(ctx, out, rule="SH.main"):
 TRUNCATING = re.compile(r"Iterator::(map_while|take_while|skip_while|take|skip|step_by|nth|find|find_map|position|last|scan|peekable|fuse)$")
 
 
+def _validator_views(ctx, name, vb):
+    """The validator as written (with its closures / coroutine), then its normalised view."""
+    views = [ctx.facts.with_descendants(vb)]
+    if not vb.coroutine:
+        sv = ctx.validate_body(name, inline=True, sugar=True)
+        if sv is not None and sv is not vb:
+            views.append([sv])
+    for b in ctx.facts.with_descendants(vb):
+        if b.coroutine and any(callee_matches(t, r"tokio::task::JoinSet::<T>::spawn$") for bi, t in b.calls()):
+            views.append([ctx.inl(b, skip=ctx.domain_api, tag="domain", sugar=True)])
+    return views
+
+
 def sh_visit(ctx, out, name, attr=None, rule="SH.visit"):
     """The loops over `context.blocks` and `blocks_with_context` iterate the collections directly
     (no truncating adaptor) and a block without the rule's attribute continues with the next block.
@@ -354,11 +378,7 @@ def sh_visit(ctx, out, name, attr=None, rule="SH.visit"):
     if vb is None:
         out.inst(rule + "." + name, 0, 2)
         return
-    views = [ctx.facts.with_descendants(vb)]
-    if not vb.coroutine:
-        sv = ctx.validate_body(name, inline=True, sugar=True)
-        if sv is not None and sv is not vb:
-            views.append([sv])
+    views = _validator_views(ctx, name, vb)
     on_any_view(out, views, lambda bodies, o: _sh_visit(ctx, o, name, attr, rule, bodies))
 
 
